@@ -1010,3 +1010,75 @@ def c20_r2(ctx):
             ctx.ok()
         else:
             ctx.viol((f.id, "download-done-without-download"), "a download is reported as done although no download succeeded", f.where(bb, idx))
+
+
+@rule("C01.R8", floor=3)
+def c01_r8(ctx):
+    """Each rule thread works on its own rule: in the spawn loop the history captured by a
+    node's closure is the Ok payload of read_rule_history(&node.rule_ticket) of the node
+    being spawned; the ticket stored beside the join handle (the key of the later
+    write_rule_history) is that same node.rule_ticket; the command and history handed to the
+    handler are the captured node's command and that captured history."""
+    R = Roles(ctx.P)
+    leaf, node = R.build_closures()
+    b = R.entry("build")
+    pf, bb, idx, rv = ctx.P.closure_sites[node.id]
+    caps = node.body["captures"]
+    lps = [lp for lp in b.loops() if bb in lp["body"]]
+    ctx.need(lps, "node spawn loop")
+    lp = max(lps, key=lambda l: len(l["body"]))
+    elem_node = {e + (("field", 0),) for e in lp["elem"]}
+    tys = node.body["upvar_tys"]
+    hist_i = [i for i, t in enumerate(tys) if t["s"] == "history::RuleHistory"]
+    node_i = [i for i, t in enumerate(tys) if t["s"] == "sort::Node"]
+    ctx.need(len(hist_i) == 1 and len(node_i) == 1, "captured RuleHistory and Node")
+    ctx.inst("captured history", b.where(bb, idx))
+    ho = b.origins_of_operand(rv["ops"][hist_i[0]])
+    ok = ho and all(o[0][0] == "call" and o[0][3].endswith("read_rule_history") and o[1:] == (("variant", "Ok"), ("field", 0)) for o in ho)
+    if ok:
+        for o in ho:
+            rh = b.call_at[o[0][2]]
+            if b.origins_of_operand(rh.args[1]) != {e + (("field", "rule_ticket"),) for e in elem_node}:
+                ok = False
+    if ok:
+        ctx.ok()
+    else:
+        ctx.viol((b.id, "foreign-history"), "the history given to a rule's thread is not read_rule_history(rule_ticket) of the node being spawned", b.where(bb, idx))
+    ctx.inst("captured node", b.where(bb, idx))
+    if b.origins_of_operand(rv["ops"][node_i[0]]) != elem_node:
+        ctx.viol((b.id, "foreign-node"), "the node given to a rule's thread is not this iteration's node", b.where(bb, idx))
+    else:
+        ctx.ok()
+    # the ticket stored beside the handle
+    sp = [cs for (p2, cs, cl) in R.spawns() if cl is node][0]
+    pushes = [p for p in b.calls_to("std::vec::Vec::<T, A>::push") if p.bb in lp["body"] and "JoinHandle" in b.local_ty(p.args[1]["place"]["local"])["s"]]
+    ctx.inst("handle + ticket", pushes[0].where if pushes else sp.where)
+    good = False
+    for p in pushes:
+        for o in b.origins_of_operand(p.args[1]):
+            if o[0][0] == "agg" and o[0][4] == "tuple":
+                trv = b.blocks[o[0][2]]["stmts"][o[0][3]]["rv"]
+                t0 = b.origins_of_operand(trv["ops"][0])
+                t1 = b.origins_of_operand(trv["ops"][1])
+                some = all(x[0][0] == "agg" and x[0][4].endswith("Option::Some") for x in t0) and t0
+                if some:
+                    inner = set()
+                    for x in t0:
+                        srv = b.blocks[x[0][2]]["stmts"][x[0][3]]["rv"]
+                        inner |= b.origins_of_operand(srv["ops"][0])
+                    if inner == {e + (("field", "rule_ticket"),) for e in elem_node} and t1 == b._call_origins(sp, (), frozenset()):
+                        good = True
+    if good:
+        ctx.ok()
+    else:
+        ctx.viol((b.id, "handle-ticket-mismatch"), "the ticket stored beside a thread's join handle is not the rule_ticket of the node that thread works on: its history would be written under another rule's name", sp.where)
+    # inside the closure: RuleExt{command: node.command, rule_history: captured history, ...}
+    for (b2, i2, rv2, pl2) in node.constructs("work::RuleExt"):
+        ctx.inst("RuleExt", node.where(b2, i2))
+        ops = dict(zip(rv2["kind"]["fields"], rv2["ops"]))
+        if node.origins_of_operand(ops["command"]) != {(("param", 1), ("field", caps[node_i[0]]), ("field", "command"))}:
+            ctx.viol((node.id, "foreign-command"), "the command handed to the handler is not the captured node's command", node.where(b2, i2))
+        elif node.origins_of_operand(ops["rule_history"]) != {(("param", 1), ("field", caps[hist_i[0]]))}:
+            ctx.viol((node.id, "foreign-history-in-closure"), "the history handed to the handler is not the captured one", node.where(b2, i2))
+        else:
+            ctx.ok()
